@@ -114,7 +114,9 @@ def main():
         if r.get('error'):
             if r['error'].startswith('undecided'): undecided.append({'job': name, 'why': r['error'][:300]})
             elif spec.compile_failure_is_violation and r['error'].startswith('clang failed'):
-                violations.append({'job': j.ident(), 'msg': '%s: configuration does not compile' % pid, 'inputs': None, 'confirmed': True, 'detail': r['error'][-1500:]})
+                em = re.search(r'error: ([^\n]*)', r['error']); fm_ = re.search(r'small_vector\.hpp:\d+:\d+: note: in instantiation of [^\n]*?::(\w+)<', r['error'])
+                sig = (em.group(1).strip() if em else 'error') + (' via ' + fm_.group(1) if fm_ else '')
+                violations.append({'job': j.ident(), 'msg': '%s: configuration does not compile (%s)' % (pid, sig[:120]), 'inputs': None, 'confirmed': True, 'detail': r['error'][-1500:]})
             else: framework.append({'job': name, 'why': r['error'][:2000]})
             continue
         c = classify(pid, spec, r)
